@@ -48,6 +48,7 @@ def space(tier):
         # one node deeper than the full grammar, with few leaves and nesting depth 1 (sequences of conditionals / loops / calls)
         seen |= set(p2)
         slim = [p for p in G.slim_programs(b["one_acc_nodes"] + 1) if p not in seen]
+        slim += [p for p in G.slim_two_acc_programs(b["one_acc_nodes"] + 1) if p not in seen]
     return p1 + p2 + extra + slim + G.skeletons("acc1")
 
 
